@@ -476,6 +476,161 @@ def rule_callers(chk, prog):
                   loc=m.loc(h), nontrivial=True)
 
 
+STR_HELPERS = ('__write_smtlib_str', '__write_smtlib_pretty_str')
+
+
+def _str_is_recursive(prog):
+    """Does Node.__str__ convert its children with str()/format (i.e. is
+    the conversion recursive in the nesting depth)?"""
+    nm = prog.mod('nodes')
+    f = nm.funcs.get('Node.__str__')
+    if f is None:
+        raise AnalysisError('nodes.Node.__str__ not found')
+    for x in ast.walk(f):
+        if isinstance(x, ast.Name) and x.id in ('str', 'repr', 'format'):
+            return True
+        if isinstance(x, ast.FormattedValue):
+            return True
+        if isinstance(x, ast.BinOp) and isinstance(x.op, ast.Mod):
+            return True
+        if isinstance(x, ast.Attribute) and x.attr in ('format', '__str__'):
+            return True
+    return False
+
+
+def rule_r6(chk, prog):
+    chk.rule('C07.R6', 'every text the writers put into the file comes from '
+             'the explicit-stack renderers or is a constant separator: no '
+             'whole expression is converted with the recursive '
+             'Node.__str__ (nesting depth is unbounded)')
+    m = prog.mod('nodeio')
+    recursive = _str_is_recursive(prog)
+    n = 0
+    for fname in ('write_smtlib', 'write_smtlib_for_checking'):
+        f = m.func(fname)
+        where = f'nodeio.{fname}'
+        ps = params_of(f)
+        exprs_p = ps[1]
+
+        def defs_of(name):
+            out = []
+            for st in ast.walk(f):
+                if isinstance(st, ast.Assign) and any(
+                        isinstance(t, ast.Name) and t.id == name
+                        for t in st.targets):
+                    out.append(('val', st.value))
+                if isinstance(st, (ast.For, ast.comprehension)) and \
+                        isinstance(st.target, ast.Name) and \
+                        st.target.id == name:
+                    out.append(('elem', st.iter))
+            return out
+
+        def is_exprs_elem(e, depth=0):
+            """e is a top-level expression (an element of the parameter)."""
+            if depth > 6 or not isinstance(e, ast.Name):
+                return False
+            return any(k == 'elem' and isinstance(v, ast.Name) and (
+                v.id == exprs_p or False) for k, v in defs_of(e.id))
+
+        def classify(e, depth=0):
+            """-> set of kinds of the text value e: const, render, nodestr,
+            unknown; elem=True: e is an iterable, classify its elements"""
+            if depth > 8:
+                return {'unknown'}
+            if isinstance(e, ast.Constant) and isinstance(e.value, str):
+                return {'const'}
+            if isinstance(e, ast.Call):
+                cn = call_name(e) or ''
+                if cn in STR_HELPERS:
+                    return {'render'}
+                if cn in ('str', 'repr', 'format') and e.args:
+                    if is_exprs_elem(e.args[0]):
+                        return {'nodestr'}
+                    return {'unknown'}
+            if isinstance(e, ast.JoinedStr):
+                res = {'const'}
+                for v in e.values:
+                    if isinstance(v, ast.FormattedValue):
+                        if is_exprs_elem(v.value):
+                            res.add('nodestr')
+                        else:
+                            res |= classify(v.value, depth + 1)
+                return res
+            if isinstance(e, ast.IfExp):
+                return classify(e.body, depth + 1) | classify(
+                    e.orelse, depth + 1)
+            if isinstance(e, ast.Name):
+                ds = defs_of(e.id)
+                if not ds:
+                    return {'unknown'}
+                res = set()
+                for k, v in ds:
+                    if k == 'val':
+                        res |= classify(v, depth + 1)
+                    else:
+                        res |= classify_elems(v, depth + 1)
+                return res
+            return {'unknown'}
+
+        def classify_elems(it, depth):
+            if depth > 8:
+                return {'unknown'}
+            if isinstance(it, (ast.ListComp, ast.GeneratorExp)):
+                return classify(it.elt, depth + 1)
+            if isinstance(it, ast.Call) and call_name(it) == 'map' and len(
+                    it.args) == 2:
+                fn, src = it.args
+                over_exprs = isinstance(src, ast.Name) and src.id == exprs_p
+                if isinstance(fn, ast.Name):
+                    if fn.id in STR_HELPERS:
+                        return {'render'}
+                    if fn.id in ('str', 'repr', 'format') and over_exprs:
+                        return {'nodestr'}
+                    return {'unknown'}
+                if isinstance(fn, ast.Lambda):
+                    return classify(fn.body, depth + 1)
+            if isinstance(it, ast.Name):
+                if it.id == exprs_p:
+                    return {'nodestr'}
+                res = set()
+                for k, v in defs_of(it.id):
+                    if k == 'val':
+                        res |= classify_elems(v, depth + 1)
+                    else:
+                        res.add('unknown')
+                return res or {'unknown'}
+            if isinstance(it, ast.IfExp):
+                return classify_elems(it.body, depth + 1) | classify_elems(
+                    it.orelse, depth + 1)
+            return {'unknown'}
+
+        for c in ast.walk(f):
+            if not (isinstance(c, ast.Call) and isinstance(
+                    c.func, ast.Attribute) and c.func.attr in (
+                        'write', 'writelines') and c.args):
+                continue
+            n += 1
+            if c.func.attr == 'writelines':
+                kinds = classify_elems(c.args[0], 0)
+            else:
+                kinds = classify(c.args[0])
+            if 'unknown' in kinds:
+                raise AnalysisError(
+                    f'C07.R6: {m.loc(c)}: origin of the text written by '
+                    f'"{unparse(c)}" is not recognised (kinds {kinds})')
+            bad = 'nodestr' in kinds and recursive
+            chk.check('C07.R6', where, c, not bad,
+                      'a whole top-level expression is converted with '
+                      'str()/format, i.e. Node.__str__, which recurses '
+                      'once per nesting level: deeply nested inputs (the '
+                      'explicit-stack renderers exist for them) raise '
+                      'RecursionError instead of being rendered',
+                      loc=m.loc(c), nontrivial=True,
+                      argument=f'origins {sorted(kinds)}; Node.__str__ '
+                      f'recursive: {recursive}')
+    chk.floor('C07.R6', 'write calls in the dispatching writers', n, 2)
+
+
 def rule_r5(chk, prog):
     chk.rule('C07.R5', 'writer/reader alphabet agreement: separators the '
              'writers emit are white space of the reader; the comment '
@@ -531,9 +686,10 @@ def run(tier):
             'containing delimiters) - delegated to C15',
         ],
         assumptions=['leaf texts are lexemes of the reader (C08/C15)'])
-    rule_emitters(chk, prog, None)
-    rule_callers(chk, prog)
-    rule_r5(chk, prog)
+    chk.guard(rule_emitters, chk, prog, None)
+    chk.guard(rule_callers, chk, prog)
+    chk.guard(rule_r5, chk, prog)
+    chk.guard(rule_r6, chk, prog)
     extra = None
     if tier == 'thorough':
         from .. import selftest
